@@ -80,7 +80,10 @@ class FuncDefn(BaseOp):
     def deserialize(self) -> ops.FuncDefn:
         poly_func = self.signature.deserialize()
         return ops.FuncDefn(
-            self.name, inputs=poly_func.body.input, _outputs=poly_func.body.output
+            self.name,
+            inputs=poly_func.body.input,
+            params=poly_func.params,
+            _outputs=poly_func.body.output,
         )
 
 
@@ -231,6 +234,7 @@ class DataflowBlock(BaseOp):
             inputs=deser_it(self.inputs),
             _sum=tys.Sum([deser_it(r) for r in self.sum_rows]),
             _other_outputs=deser_it(self.other_outputs),
+            extension_delta=self.extension_delta,
         )
 
     model_config = ConfigDict(
@@ -518,6 +522,7 @@ class ExtensionOp(DataflowOp):
             extension=self.extension,
             op_name=self.name,
             signature=self.signature.deserialize(),
+            description=self.description,
             args=deser_it(self.args),
         )
 
